@@ -126,9 +126,13 @@ def run_C08(ctx):
 def valid_plan(ctx):
     """(name, configs, max_now, max_bad, put_topics, simulate, depth) per TLC run; sized from measured state counts."""
     one, two = Raw('{{""}}'), Raw('{{""}, {"t"}}')
+    three = Raw('{{""}, {"t"}, {"u", "t"}}')
     if ctx.quick:
         return [
             ("ValidTopics", valid_cfgs([2], [0, 1, 4], 4), 4, 0, two, None, None),      # 18k states
+            ("ValidMultiTopics", valid_cfgs([2], [0], 3), 2, 0, three, None, None),     # messages put on several topics
+            # 3 + 4 + 2 puts: a collection that shrinks the ring while the survivors straddle its physical end
+            ("ValidStraddle", [dict(kind="valid", n=0, auto=a, ttl=2, gci=0, maxputs=9) for a in (False,)], 3, 0, one, None, None),
             ("ValidRejected", valid_cfgs([2], [0, 1], 2), 3, 1, two, None, None),       # 5k
             ("ValidTTL3", valid_cfgs([3], [1], 4), 5, 0, one, None, None),              # 1k
             ("ValidDeep", valid_cfgs([2], [0, 3], 8), 3, 0, one, None, None),           # 6k: grow to 8, wrap, shrink
@@ -137,6 +141,7 @@ def valid_plan(ctx):
         ]
     return [
         ("ValidTopics", valid_cfgs([2, 3], [0, 1, 2, 4], 4), 5, 0, two, None, None),
+        ("ValidMultiTopics", valid_cfgs([2], [0, 1], 4), 3, 0, three, None, None),
         ("ValidRejected", valid_cfgs([2], [0, 1, 2], 3), 4, 1, two, None, None),
         ("ValidDeep", valid_cfgs([2, 3], [0, 1, 3], 9), 4, 0, one, None, None),
         ("ValidDeeper", [dict(kind="valid", n=0, auto=a, ttl=2, gci=0, maxputs=12) for a in (False, True)], 4, 0, one, None, None),
